@@ -394,7 +394,7 @@ def parseKeyword (m : Mode) (env : Env) (s : St) (name : Bytes) (ts : List Tok) 
         | .str x :: rest =>
           match env.glob x with
           | none => none
-          | some none => some (s, rest)
+          | some none => some (append s name (.list []), rest)
           | some (some l) => some (append s name (.list l), rest)
         | _ => none
       else if fn = S "config_parse_canvas_directory" then
